@@ -233,6 +233,29 @@ def run(rep):
             rule_rebase(rep, t, m)
             rule_preroll(rep, t, m)
         rep.guarded("R-C05-shift", one)
+    # fixed-input loops must stop while the kernel still reads loaded frames only: past them the buffer holds leftovers of an earlier, larger
+    # chunk, i.e. content that depends on how the stream was cut.  The loop bound must subtract the kernel reach and at least the *final*
+    # step of the chunk (1/target).  (Whether it also covers the larger steps at the start of a ramp is C03's R-C03-margin - a recorded
+    # finding there; for this property the final step is what decides whether the last position lies inside the loaded data.)
+    import C03
+
+    class _FinalStep:
+        def __init__(self, rep):
+            self._rep = rep
+            self.ctx = rep.ctx
+
+        def ob(self, rule, key, ok, detail="", where="", sample=None):
+            if key.endswith("/step-margin/ceil-of-target-step-only"):
+                key, ok = key[:-len("/ceil-of-target-step-only")], True
+                detail = "loop bound subtracts ceil(1/target_ratio), the final step of the chunk: " + detail[:120]
+            return self._rep.ob("R-C05-bound", key, ok, detail, where, sample)
+
+        def __getattr__(self, name):
+            return getattr(self._rep, name)
+    for t in ("SincFixedIn", "FastFixedIn"):
+        rep.guarded("R-C05-bound", lambda r, t=t: C03.rule_margin(_FinalStep(r), t, asyncmodel.extract(facts, t)))
+    rep.floor("R-C05-bound", 20)
+    rep.clause("R-C05-bound", "fixed-input loops: the bound idx < end_idx subtracts the kernel's right reach and at least the final step of the chunk, so the last position of a call reads loaded frames only")
     import fftmodel
     rep.guarded("R-C05-fft", fftmodel.rule_conserve, "R-C05-fft")
     # the per-frame computation must be a function of the absolute position only (the position relative to the chunk start is negative
